@@ -18,7 +18,7 @@ const OPS: &[&str] = &["array_int", "array_float", "array_bool", "array_obj",
                        "vec_fill", "vec_fill_float", "vec_fill_bool", "vec_fill_obj",
                        "manual_alloc", "manual_reuse", "bytes_alloc",
                        "string_repeat", "string_repeat_mb", "pad_left", "pad_right", "pad_left_mb", "pad_right_mb",
-                       "replace_sq", "join_sq", "str_literal",
+                       "replace_sq", "join_sq", "str_literal", "churn", "churn_mix", "churn_over",
                        "concat_double", "vec_new_lit", "closures"];
 
 /// (prelude, operation input).  The operation input is the same text for every size: the size is the
@@ -65,6 +65,14 @@ fn program(op: &str, n: i128, limit: u64) -> Option<(String, String)> {
         // results whose length is the PRODUCT of two strings the program holds
         "replace_sq" => "let a = \"a\".repeat(n)\nlet b = \"b\".repeat(n)\nlet r = a.replace(\"a\", b)\nused = r.len()\nused\n",
         "join_sq" => "let p = \"x\\n\".repeat(n)\nlet b = \"b\".repeat(n)\nlet r = p.join(b)\nused = r.len()\nused\n",
+        // closures with a closed upvalue created and dropped across many collections, then two arrays of 45 % of the
+        // limit each: they fit only if the accounting of the churned objects went back to where it started
+        "churn" => "fn mk(k) {\n  return fn(x) { return x + k }\n}\nlet mut t = 0\nlet mut i = 0\nwhile i < n {\n  let c = mk(i)\n  t = t + c(1)\n  i = i + 1\n}\nlet a = Array<Int>(rsv)\nlet b = Array<Int>(rsv)\nused = a.len() + b.len() + t - t\nused\n",
+        // the shape of the demo of seeded C10_r2_1: one array of 36 % of the limit, the churn, two more such arrays -- the
+        // third can never fit (108 %), however often the collector ran in between
+        "churn_over" => "fn mk(k) {\n  return fn(x) { return x + k }\n}\nlet k1 = Array<Int>(rsv)\nlet mut t = 0\nlet mut i = 0\nwhile i < n {\n  let c = mk(i)\n  t = t + c(1)\n  i = i + 1\n}\nlet a = Array<Int>(rsv)\nlet b = Array<Int>(rsv)\nused = k1.len() + a.len() + b.len() + t - t\nused\n",
+        // the same with a string, an array and a growing vec created and dropped in every iteration as well
+        "churn_mix" => "fn mk(k) {\n  return fn(x) { return x + k }\n}\nlet mut t = 0\nlet mut i = 0\nwhile i < n {\n  let c = mk(i)\n  let s = sx + sx\n  let ar = Array<Int>(8)\n  let v = Vec<Int>[1, 2]\n  v.push(i)\n  v.push(i)\n  v.push(i)\n  t = t + c(1) + s.len() + ar.len() + v.len()\n  i = i + 1\n}\nlet a = Array<Int>(rsv)\nlet b = Array<Int>(rsv)\nused = a.len() + b.len() + t - t\nused\n",
         "concat_double" => "let mut s = sx\nlet mut i = 0\nwhile i < n {\n  s = s + s\n  i = i + 1\n}\nused = s.len()\nused\n",
         "vec_new_lit" => "let v = Vec<Int>[1, 2, 3, 4]\nlet mut i = 0\nlet mut keep = Vec[v]\nwhile i < n {\n  keep.push(Vec<Int>[1, 2, 3, 4])\n  i = i + 1\n}\nused = keep.len()\nused\n",
         "closures" => "fn mk(k) {\n  return fn(x) { return x + k }\n}\nlet mut keep = Vec[mk(0)]\nlet mut i = 0\nwhile i < n {\n  keep.push(mk(i))\n  i = i + 1\n}\nused = keep.len()\nused\n",
@@ -104,6 +112,8 @@ static GLOBAL: LoggingAlloc = LoggingAlloc;
 
 /// elements reserved by the vec_fill operations: all but 150 000 bytes of the limit
 fn fill_reserve(op: &str, limit: u64) -> i128 {
+    if op == "churn_over" { return (limit as i128 * 36 / 100) / 8; }
+    if op.starts_with("churn") { return (limit as i128 * 45 / 100) / 8; }
     if !op.starts_with("vec_fill") { return 0; }
     (limit as i128 - 150_000) / if op == "vec_fill_bool" { 1 } else { 8 }
 }
@@ -147,6 +157,16 @@ fn child() {
     aelys_runtime::verif::heap_check_observer_set(None);
     let a1 = vm.heap().bytes_allocated() as u64 + vm.manual_heap().bytes_allocated() as u64;
     let p1 = vm_peak_kib();
+    // the accounting invariant, recomputed from the heap itself: bytes_allocated must be the sum of the estimates of the objects
+    // that are on the heap (sweep subtracts the estimate an object has when it dies) -- now, and again after a collection
+    fn heap_sum(vm: &aelys_runtime::VM) -> u64 {
+        let h = vm.heap();
+        (0..h.verif_slot_count()).filter_map(|i| h.get(aelys_bytecode::object::GcRef::new(i)))
+            .map(|o| aelys_bytecode::Heap::estimate_object_size(o) as u64).sum()
+    }
+    let (sum1, bytes1) = (heap_sum(&vm), vm.heap().bytes_allocated() as u64);
+    vm.collect();
+    let (sum2, bytes2) = (heap_sum(&vm), vm.heap().bytes_allocated() as u64);
     // summary of the order log: host requests, the largest, those NOT preceded by a granted limit check that covers
     // them (4 KiB slack), limit checks, refused limit checks, host requests after the first refused check
     let n_ev = LOG_N.load(Ordering::SeqCst).min(LOG_CAP);
@@ -167,6 +187,7 @@ fn child() {
             if k == 2 { cks.push(format!("{}", v)); } else if k == 3 { cks.push(format!("{}!", v)); } }
     }
     let ev = format!("EV:{}:{}:{}:{}:{}:{}:{}:{}:CK={}", nhost, maxhost, uncovered, first_unc, nck, nfail, host_after_fail, LOG_N.load(Ordering::SeqCst), cks.join(","));
+    let ev = format!("{}:ACC={}/{}/{}/{}", ev, sum1, bytes1, sum2, bytes2);
     let kind = match r.class.as_str() {
         "ok" => 0, "runtime:OutOfMemory" => 1, "runtime:InvalidAllocationSize" => 2, "runtime:TypeError" => 3,
         "panic" => 5, "budget" => 7, _ => 9,
@@ -233,6 +254,10 @@ fn sizes_for(op: &str, limit: u64, rng: &mut Rng, random: bool) -> Vec<i128> {
     let unit: i128 = match op {
         "array_bool" | "bytes_alloc" | "pad_left" | "pad_right" | "vec_reserve_bool" => 1,
         "pad_left_mb" | "pad_right_mb" => 3, "string_repeat_mb" => 6, "string_repeat" => 16, "manual_reuse" => 16, _ => 8 };
+    if op.starts_with("churn") {
+        // about 292 bytes of garbage per iteration: the collector runs every ~3 500 iterations at the 1 MiB threshold
+        return if random { vec![rng.range_i64(0, 60_000) as i128] } else { vec![-1, 0, 1, 2, 100, 3000, 4000, 10_000, 40_000, 100_000] };
+    }
     if op == "str_literal" {
         return if random { vec![rng.range_i64(0, (l + 2000) as i64) as i128] } else { vec![0, 1, 1000, l / 2, l - 100_000, l - 6000, l - 4000, l, l + 1000] };
     }
@@ -314,7 +339,7 @@ fn main() {
             for (li, &limit) in limits.iter().enumerate() {
                 for s in sizes_for(op, limit, &mut rng, false) {
                     // the structured grid runs at every limit for the boundary sizes; the long-running loops only at the smallest
-                    if li > 0 && op.starts_with("vec_push") || li > 1 && op.starts_with("vec_fill") { continue; }   // instruction budget: millions of pushes
+                    if li > 0 && op.starts_with("vec_push") || li > 1 && op.starts_with("vec_fill") || limit < (2 << 20) && op.starts_with("churn") { continue; }   // instruction budget: millions of pushes
                     for &opt in &opts { cases.push(Case { op: op.to_string(), size: s, limit, opt }); }
                 }
             }
@@ -322,7 +347,7 @@ fn main() {
         for _ in 0..random {
             let op = *rng.pick(OPS);
             if let Some(o) = &only { if o != op { continue; } }
-            let limit = if op.starts_with("vec_push") { limits[0] } else if op.starts_with("vec_fill") { limits[rng.below(2.min(limits.len() as u64)) as usize] } else { *rng.pick(&limits) };
+            let limit = if op.starts_with("vec_push") { limits[0] } else if op.starts_with("vec_fill") { limits[rng.below(2.min(limits.len() as u64)) as usize] } else if op.starts_with("churn") { *limits.iter().filter(|&&l| l >= (2 << 20)).last().unwrap_or(&limits[0]) } else { *rng.pick(&limits) };
             let s = sizes_for(op, limit, &mut rng, true)[0];
             let opt = *rng.pick(&opts);
             cases.push(Case { op: op.to_string(), size: s, limit, opt });
@@ -346,7 +371,7 @@ fn main() {
     for (k, c) in cases.iter().enumerate() {
         let (kind, da, dp, a0, detail) = results[k].lock().unwrap().clone().unwrap();
         let mut cop = coq_op(&c.op);
-        if c.op.starts_with("vec_fill") { cop = format!("{} {}", cop, fill_reserve(&c.op, c.limit)); }
+        if c.op.starts_with("vec_fill") || c.op.starts_with("churn") { cop = format!("{} {}", cop, fill_reserve(&c.op, c.limit)); }
         println!("{}\t{}\t{}\t{}\t{}\t{}\t{} {} {} {}\t{}", k, c.op, c.size, c.limit, c.opt, cop, kind, da, dp, a0, detail);
     }
 }
@@ -359,7 +384,7 @@ fn coq_op(op: &str) -> String {
         "manual_alloc" => "OManual".into(), "manual_reuse" => "OManualReuse".into(),
         "bytes_alloc" => "OBytes".into(), "string_repeat" => "ORepeat 16".into(), "string_repeat_mb" => "ORepeat 6".into(),
         "pad_left" | "pad_right" => "OPad 16 16 1".into(), "pad_left_mb" | "pad_right_mb" => "OPad 16 16 3".into(),
-        "str_literal" => "OLiteral".into(),
+        "str_literal" => "OLiteral".into(), "churn" => "OChurn".into(), "churn_mix" => "OChurnMix".into(), "churn_over" => "OChurnOver".into(),
         "replace_sq" => "OProductSq 1".into(), "join_sq" => "OProductSq 2".into(),
         "concat_double" => "OConcatDouble 16".into(), "vec_new_lit" => "OVecLits".into(), "closures" => "OClosures".into(), o => format!("OUnknown_{}", o),
     }
